@@ -176,6 +176,15 @@ class Folder:
         if isinstance(e, ast.Call):
             return self.call(e)
         if isinstance(e, ast.Attribute):
+            # UInt32.width / fixedint.UInt8.width / UInt12.width (the package's own 12-bit type): the bit width is in the type's name
+            if e.attr == "width":
+                import re as _re
+                base = e.value.id if isinstance(e.value, ast.Name) else e.value.attr if isinstance(e.value, ast.Attribute) else ""
+                mm = _re.fullmatch(r"U?Int(\d+)", base)
+                if mm:
+                    origin = self.module.imports.get(base, "") if isinstance(e.value, ast.Name) else ast.unparse(e.value)
+                    if origin.startswith("fixedint") or "fixedint" in origin:
+                        return int(mm.group(1))
             # module.attr of package modules, Enum-ish access is not folded
             r = self.model.resolve_expr(self.module, e)
             if isinstance(r, tuple) and r[0] == "assign":
@@ -186,6 +195,11 @@ class Folder:
             if isinstance(r, tuple) and r[0] == "ext":
                 if r[1] in _EXT_CONST:
                     return _EXT_CONST[r[1]]
+                # fixedint.UInt32.width / UInt12.width: the bit width is in the class name
+                import re as _re
+                mm = _re.fullmatch(r"fixedint(?:\.[A-Za-z_]+)*\.U?Int(\d+)\.width", r[1])
+                if mm:
+                    return int(mm.group(1))
             raise Unknown("attribute " + ast.unparse(e))
         if isinstance(e, ast.JoinedStr):
             parts = []
